@@ -360,11 +360,11 @@ def reference(case):
 
     def head(up, n):
         c = 0
-        for v in up:          # the n+1-th element is pulled before stopping (consumption detail)
-            if c >= n:
-                return
+        for v in up:          # stops right after the n-th element: what follows (even a failure) is never pulled
             yield v
             c += 1
+            if c >= n:
+                return
 
     def tail(up, n):
         buf = list(up)
